@@ -562,15 +562,15 @@ spif_mbuff_reverse(spif_mbuff_t self)
 spif_memidx_t
 spif_mbuff_rindex(spif_mbuff_t self, spif_uint8_t c)
 {
-    spif_byteptr_t tmp;
+    spif_memidx_t i;
 
     ASSERT_RVAL(!SPIF_MBUFF_ISNULL(self), ((spif_memidx_t) -1));
-    for (tmp = self->buff + self->len - 1; (*tmp != c) && (tmp >= self->buff); tmp--);
+    for (i = self->len - 1; (i >= 0) && (self->buff[i] != c); i--);
 
-    if ((tmp == self->buff) && (*tmp != c)) {
+    if (i < 0) {
         return (spif_memidx_t) (self->len);
     } else {
-        return (spif_memidx_t) ((spif_long_t) tmp - (spif_long_t) self->buff);
+        return i;
     }
 }
 
